@@ -89,6 +89,17 @@ CLAIMS = {
          'The clause "retry after more data behaves as if all data had been present" is decided only through these conditions (a split inside '
          'macroblock data ends the picture successfully, so that clause is vacuous there).',
     technique='CFG reachability + dominance rules and interprocedural mod/ref effect summaries over MIR', ref='6/C05'),
+ 'C06': dict(
+    text='Static, every combination of header field values at once: each of the 15 header sub-parsers and decode_picture is abstracted from MIR into a decision '
+         'table (R: every consuming reader call with its width and presence condition, in bitstream order; T: every leaf of every value it can return with the '
+         'condition it is returned under; flags as set insertions) whose conditions are DNFs over bit slices of the reads, enum variants and named atoms, with '
+         'multi-definition locals resolved through reaching definitions. Each table is compared as Boolean functions (concrete distinguishing assignment on '
+         'mismatch) with the table of H.263 5.1 / Sorenson Spark written from the standard: all PTYPE / OPPTYPE / MPPTYPE bits and markers, source-format and '
+         'picture-type codes, CPFMT/EPAR/CPCFC/ETR/UUI/ELNUM/RPSMF/TRPI/BCI/TRB/DBQUANT fields, Sorenson size and type codes, the PEI loop shape (L), which read '
+         'feeds which Picture field (found D8 PTYPE bit-9 polarity and D9 9-bit PHI: fixed). I: the inherited option sets; B: flag constants disjoint; '
+         'H: DecodedPicture stores the parsed header and the format in force unmodified, sizes its planes from it, nobody else writes them; S: standard format sizes. '
+         'Not decided: which of the two SSS bits is RECTANGULAR_SLICES; that read_bits returns MSB-first integers is C04/C05/C14 territory.',
+    technique='decision-table extraction from MIR (path conditions in a bit-slice domain, reaching definitions, set-insertion model of |=) + semantic DNF comparison with a written-out specification table; who-may-write effect rule; const folding', ref='6/C06'),
  'C17': dict(
     text='Static, all executions: no shared mutable state and no nondeterminism source exists in the three crates. S1 every static immutable+Freeze '
          '(lazy_static cells: pure constant initialiser), S2 zero unsafe/extern (HIR walk), S3 interprocedural mod/ref summaries show no static is written, '
